@@ -99,6 +99,12 @@ func c20Mappings(level int) []c20Mapping {
 			return c
 		}},
 	}
+	ms = append(ms, c20Mapping{"shared-after-three", func(ids []string) genlab.Cfg {
+		c := base()
+		c.Mappings = []genlab.Mapping{{ID: ids[0], Package: "example.com/m/p", Output: "p/x.go"}, {ID: ids[1], Package: "example.com/m/p", Output: "p/y.go"},
+			{ID: ids[2], Package: "example.com/m/p", Output: "p/z.go"}, {ID: ids[3], Package: "example.com/m/p", Output: "p/x.go"}}
+		return c
+	}})
 	if level >= 1 {
 		ms = append(ms,
 			c20Mapping{"one-file", func(ids []string) genlab.Cfg { c := base(); c.Output = "all/one.go"; return c }},
